@@ -5,9 +5,11 @@ package ackhandler
 import (
 	"time"
 
+	"github.com/refraction-networking/uquic/internal/congestion"
 	"github.com/refraction-networking/uquic/internal/monotime"
 	"github.com/refraction-networking/uquic/internal/protocol"
 	"github.com/refraction-networking/uquic/internal/utils"
+	vu "github.com/refraction-networking/uquic/internal/verifutil"
 	"github.com/refraction-networking/uquic/internal/wire"
 )
 
@@ -18,7 +20,95 @@ import (
 type VerifC20SPH struct {
 	h   *sentPacketHandler
 	Rtt *utils.RTTStats
+	Spy *VerifC20Spy
 }
+
+// VerifC20Spy sits between the handler and its real congestion controller and records every call
+// the handler makes on it — in the handler's own order and with the handler's own arguments — as
+// (op, observation) pairs of coq/Congestion/Run.v, so that the Gallina sender model is replayed
+// on exactly the call sequences sentPacketHandler issues. It forwards everything unchanged.
+type VerifC20Spy struct {
+	inner congestion.SendAlgorithmWithDebugInfos
+	rtt   *utils.RTTStats
+	Steps []string       // "(op, Ob ...)" terms
+	Calls map[string]int // call counts by method
+	Limit int            // stop recording after this many steps (the prefix stays replayable)
+	Mds0  int64
+}
+
+func (s *VerifC20Spy) rec(kind, op string, ret int64) {
+	s.Calls[kind]++
+	if len(s.Steps) >= s.Limit {
+		return
+	}
+	st, ok := congestion.VerifStateOf(s.inner)
+	if !ok {
+		return
+	}
+	s.Steps = append(s.Steps, vu.Pair(op, congestion.VerifObStr(ret, false, st)))
+}
+func verifC20b2i(b bool) int64 {
+	if b {
+		return 1
+	}
+	return 0
+}
+func (s *VerifC20Spy) srtt() string { return vu.Z(int64(s.rtt.SmoothedRTT())) }
+
+func (s *VerifC20Spy) TimeUntilSend(bif protocol.ByteCount) monotime.Time {
+	srtt := s.srtt()
+	t := s.inner.TimeUntilSend(bif)
+	s.rec("TimeUntilSend", vu.App("QTimeUntil", srtt), int64(t))
+	return t
+}
+func (s *VerifC20Spy) HasPacingBudget(now monotime.Time) bool {
+	srtt := s.srtt()
+	b := s.inner.HasPacingBudget(now)
+	s.rec("HasPacingBudget", vu.App("QBudget", vu.Z(int64(now)), srtt), verifC20b2i(b))
+	return b
+}
+func (s *VerifC20Spy) OnPacketSent(t monotime.Time, bif protocol.ByteCount, pn protocol.PacketNumber, bytes protocol.ByteCount, retrans bool) {
+	srtt := s.srtt()
+	s.inner.OnPacketSent(t, bif, pn, bytes, retrans)
+	s.rec("OnPacketSent", vu.App("Sent", vu.Z(int64(t)), vu.Z(int64(pn)), vu.Z(int64(bytes)), vu.B(retrans), srtt), 0)
+}
+func (s *VerifC20Spy) CanSend(bif protocol.ByteCount) bool {
+	b := s.inner.CanSend(bif)
+	s.rec("CanSend", vu.App("QCanSend", vu.Z(int64(bif))), verifC20b2i(b))
+	return b
+}
+func (s *VerifC20Spy) MaybeExitSlowStart() {
+	lat, mn := vu.Z(int64(s.rtt.LatestRTT())), vu.Z(int64(s.rtt.MinRTT()))
+	s.inner.MaybeExitSlowStart()
+	s.rec("MaybeExitSlowStart", vu.App("ExitSS", lat, mn), 0)
+}
+func (s *VerifC20Spy) OnPacketAcked(pn protocol.PacketNumber, bytes, prior protocol.ByteCount, t monotime.Time) {
+	s.inner.OnPacketAcked(pn, bytes, prior, t)
+	s.rec("OnPacketAcked", vu.App("Acked", vu.Z(int64(pn)), vu.Z(int64(bytes)), vu.Z(int64(prior)), vu.Z(int64(t)), "0"), 0)
+}
+func (s *VerifC20Spy) OnCongestionEvent(pn protocol.PacketNumber, lost, prior protocol.ByteCount) {
+	s.inner.OnCongestionEvent(pn, lost, prior)
+	s.rec("OnCongestionEvent", vu.App("Lost", vu.Z(int64(pn)), vu.Z(int64(lost)), vu.Z(int64(prior)), "0"), 0)
+}
+func (s *VerifC20Spy) OnRetransmissionTimeout(b bool) {
+	s.inner.OnRetransmissionTimeout(b)
+	s.rec("OnRetransmissionTimeout", vu.App("RTO", vu.B(b)), 0)
+}
+func (s *VerifC20Spy) SetMaxDatagramSize(m protocol.ByteCount) {
+	s.inner.SetMaxDatagramSize(m)
+	s.rec("SetMaxDatagramSize", vu.App("SetMDS", vu.Z(int64(m))), 0)
+}
+func (s *VerifC20Spy) InSlowStart() bool {
+	b := s.inner.InSlowStart()
+	s.rec("InSlowStart", "QInSlowStart", verifC20b2i(b))
+	return b
+}
+func (s *VerifC20Spy) InRecovery() bool {
+	b := s.inner.InRecovery()
+	s.rec("InRecovery", "QInRecovery", verifC20b2i(b))
+	return b
+}
+func (s *VerifC20Spy) GetCongestionWindow() protocol.ByteCount { return s.inner.GetCongestionWindow() }
 
 type verifC20NopHandler struct{}
 
@@ -45,7 +135,10 @@ func VerifC20NewSPH(mds int64, server bool, clientAddressValidated bool) *VerifC
 	}
 	h := NewSentPacketHandler(0, protocol.ByteCount(mds), rtt, &utils.ConnectionStats{}, clientAddressValidated, false,
 		func(protocol.PacketNumber) {}, pers, nil, utils.DefaultLogger)
-	return &VerifC20SPH{h: h.(*sentPacketHandler), Rtt: rtt}
+	v := &VerifC20SPH{h: h.(*sentPacketHandler), Rtt: rtt}
+	v.Spy = &VerifC20Spy{inner: v.h.congestion, rtt: rtt, Calls: map[string]int{}, Limit: 120, Mds0: mds}
+	v.h.congestion = v.Spy
+	return v
 }
 
 func verifC20Enc(e int) protocol.EncryptionLevel {
@@ -96,6 +189,7 @@ func (v *VerifC20SPH) OnLossTimeout(t int64) error {
 func (v *VerifC20SPH) SetMaxDatagramSize(s int64) { v.h.SetMaxDatagramSize(protocol.ByteCount(s)) }
 func (v *VerifC20SPH) SendMode(t int64) int       { return int(v.h.SendMode(monotime.Time(t))) }
 func (v *VerifC20SPH) Cwnd() int64                { return int64(v.h.congestion.GetCongestionWindow()) }
+func (v *VerifC20SPH) TimeUntilSend() int64       { return int64(v.h.TimeUntilSend()) }
 func (v *VerifC20SPH) BytesInFlight() int64       { return int64(v.h.bytesInFlight) }
 
 // VerifC20Gate: every input SendMode reads, taken from the handler's own state at time t.
@@ -121,8 +215,8 @@ func (v *VerifC20SPH) Gate(t int64) VerifC20Gate {
 	}
 	return VerifC20Gate{
 		Tracked: n, AmpLimited: h.isAmplificationLimited(), NumProbes: h.numProbesToSend, PtoMode: int(h.ptoMode),
-		BytesInFlight: int64(h.bytesInFlight), Cwnd: int64(h.congestion.GetCongestionWindow()),
-		HasPacingBudget: h.congestion.HasPacingBudget(monotime.Time(t)),
+		BytesInFlight: int64(h.bytesInFlight), Cwnd: int64(v.Spy.inner.GetCongestionWindow()),
+		HasPacingBudget: v.Spy.inner.HasPacingBudget(monotime.Time(t)),
 		BytesSent:       int64(h.bytesSent), BytesRecvd: int64(h.bytesReceived), PeerAddressValidated: h.peerAddressValidated,
 	}
 }
